@@ -50,6 +50,16 @@ func FamilyByName(name string) Family {
 	case "rel4": // two nodes, a way and a relation
 		return Family{Name: name, Parent: relR, Children: []osm.FeatureID{nodeA, nodeB, wayV, relQ}, Names: []string{"A", "B", "V", "Q"},
 			Menu: [][]int{{0, 2}, {2, 0}, {0, 2, 0}, {2}, {0, 1, 2, 3}, {3, 1}, {2, 3, 2}}}
+	case "way2x": // children at three and more positions of one parent version, and a parent version without children
+		return Family{Name: name, Parent: wayW, Children: []osm.FeatureID{nodeA, nodeB}, Names: []string{"A", "B"},
+			Menu: [][]int{{0, 1}, {0, 0, 0}, {1, 0, 1, 0, 1}, {}}}
+	case "rel3eq": // node, way and relation members with the same number; members at three positions; no members
+		return Family{Name: name, Parent: relR, Children: []osm.FeatureID{osm.NodeID(7).FeatureID(), osm.WayID(7).FeatureID(), osm.RelationID(7).FeatureID()}, Names: []string{"A", "V", "Q"},
+			Menu: [][]int{{0, 1, 2}, {2, 1, 0}, {1, 1, 1}, {0, 1, 0, 2, 0}, {}}}
+	case "rel3big": // ids beyond 32 bits, up to the largest the 40 ref bits of osm.FeatureID hold; node and way share their number
+		return Family{Name: name, Parent: osm.RelationID(1<<35 + 20).FeatureID(),
+			Children: []osm.FeatureID{osm.NodeID(1<<32 + 7).FeatureID(), osm.WayID(1<<32 + 7).FeatureID(), osm.RelationID(1<<40 - 1).FeatureID()}, Names: []string{"A", "V", "Q"},
+			Menu: [][]int{{0, 1}, {1, 0}, {0, 1, 0}, {1}, {0, 1, 2}, {2}}}
 	}
 	panic("unknown family " + name)
 }
@@ -148,6 +158,15 @@ type Space struct {
 	// Version numbering of all elements (Config): OSM versions need not
 	// start at 1 or be sequential.
 	FirstVersion, VersionStep int
+
+	// Further world configuration (Config), all optional: the commit instant of
+	// the first upload, the changeset of the first upload, the node position
+	// mode and direction-changing child ways. With ReverseWays the child ways of
+	// the family get a three-node list in the initial upload.
+	Start          time.Time
+	FirstChangeset osm.ChangesetID
+	LocMode        int
+	ReverseWays    bool
 }
 
 // SpaceID is the serialisable identity of a space (for replays).
@@ -162,6 +181,11 @@ type SpaceID struct {
 	Interl bool    `json:"interlopers"`
 	FirstV int     `json:"first_version"`
 	StepV  int     `json:"version_step"`
+
+	StartUnix int64 `json:"start_unix,omitempty"`
+	FirstCS   int64 `json:"first_changeset,omitempty"`
+	LocMode   int   `json:"loc_mode,omitempty"`
+	RevWays   bool  `json:"reverse_ways,omitempty"`
 }
 
 // ID returns the serialisable identity of the space.
@@ -170,6 +194,10 @@ func (s *Space) ID() SpaceID {
 	for _, g := range s.Gaps {
 		id.GapsMS = append(id.GapsMS, int64(g/time.Millisecond))
 	}
+	if !s.Start.IsZero() {
+		id.StartUnix = s.Start.Unix()
+	}
+	id.FirstCS, id.LocMode, id.RevWays = int64(s.FirstChangeset), s.LocMode, s.ReverseWays
 	return id
 }
 
@@ -180,6 +208,10 @@ func SpaceFromID(id SpaceID) *Space {
 	for _, g := range id.GapsMS {
 		s.Gaps = append(s.Gaps, time.Duration(g)*time.Millisecond)
 	}
+	if id.StartUnix != 0 {
+		s.Start = time.Unix(id.StartUnix, 0).UTC()
+	}
+	s.FirstChangeset, s.LocMode, s.ReverseWays = osm.ChangesetID(id.FirstCS), id.LocMode, id.RevWays
 	return s
 }
 
@@ -190,7 +222,8 @@ func (s *Space) Name() string {
 
 // Config is the world configuration of the space.
 func (s *Space) Config() Config {
-	return Config{Regime: s.Regime, FirstVersion: s.FirstVersion, VersionStep: s.VersionStep}
+	return Config{Regime: s.Regime, FirstVersion: s.FirstVersion, VersionStep: s.VersionStep,
+		Start: s.Start, FirstChangeset: s.FirstChangeset, LocMode: s.LocMode, ReverseWays: s.ReverseWays}
 }
 
 // Walk visits every history of the space up to s.Depth transitions, depth
@@ -254,7 +287,12 @@ func (s *Space) Initial() (Upload, Status) {
 	var u Upload
 	var st Status
 	for i, c := range f.Children {
-		u.Changes = append(u.Changes, Change{ID: c})
+		ch := Change{ID: c}
+		if s.ReverseWays && c.Type() == osm.TypeWay {
+			// nodes outside the world: nobody looks them up, only the direction matters
+			ch.SetRefs, ch.Refs = true, []osm.FeatureID{osm.NodeID(901).FeatureID(), osm.NodeID(902).FeatureID(), osm.NodeID(903).FeatureID()}
+		}
+		u.Changes = append(u.Changes, ch)
 		st.vis[i] = true
 	}
 	u.Changes = append(u.Changes, Change{ID: f.Parent, SetRefs: true, Refs: f.Refs(f.Init)})
